@@ -432,6 +432,45 @@ theorem endpoint_wire_nonce_unique (C : Crypto) (L : Loc) (isClient : Bool) (fp 
   obtain ⟨he, hs⟩ := nonce_injective iv _ _ _ _ h1 h2 h3 h4 heq
   exact hne (endpoint_nonce_unique C L isClient fp ops a ha b hb he hs)
 
+/-! ### after a local close() -/
+
+/-- an endpoint whose loop has ended and whose state is not Connected does nothing any more, whatever
+happens to it: datagrams are not read, `send()` is refused, timers and a further `close()` find no task -/
+theorem dead_and_not_connected_is_final (C : Crypto) (L : Loc) (e : Ep) (ha : e.alive = false) (hc : e.conn ≠ .connected) :
+    ∀ ops : List Op, runOps C L e ops = (e, []) := by
+  intro ops
+  induction ops with
+  | nil => rfl
+  | cons o os ih =>
+    have h1 : stepOp C L e o = (e, []) := by
+      cases o with
+      | packet dec bs => simp [stepOp, onPacket, ha]
+      | send d => simp [stepOp, onSend, hc]
+      | close => simp [stepOp, onClose, ha]
+      | tick => simp [stepOp, onTick, ha]
+      | deadline => simp [stepOp, onDeadline, ha]
+    simp only [runOps, h1, ih, List.append_nil]
+
+/-- **nothing follows a local `close()`**: the close branch of a running loop seals at most the
+close_notify alert, stores and publishes `Closed` and ends the task; from then on the transport sends
+nothing, delivers nothing and never changes again — in particular every `send()` that *starts* after
+`close()` is refused (`send()` checks the state first), so no record is ever sealed after the alert and
+the alert's sequence number is the last one used under the key.  (A `send()` that had already passed its
+state check when `close()` ran may still seal its records concurrently; their numbers come from the same
+`fetch_add` counter as the alert's — `publication_race_free`.) -/
+theorem nothing_follows_local_close (C : Crypto) (L : Loc) (e : Ep) (ha : e.alive = true) (ops : List Op) :
+    (onClose e).1.conn = .closed ∧ (onClose e).1.alive = false ∧
+    (sealedOf (onClose e).2).length ≤ 1 ∧ (∀ w ∈ sealedOf (onClose e).2, w.ctype = dtlsCtAlert) ∧
+    runOps C L (onClose e).1 ops = ((onClose e).1, []) := by
+  have hst : (onClose e).1.conn = .closed ∧ (onClose e).1.alive = false ∧
+      (sealedOf (onClose e).2).length ≤ 1 ∧ (∀ w ∈ sealedOf (onClose e).2, w.ctype = dtlsCtAlert) := by
+    unfold onClose
+    simp only [ha, Bool.not_true, Bool.false_eq_true, if_false]
+    split
+    · simp [sealedOf]
+    · split <;> simp [sealedOf]
+  refine ⟨hst.1, hst.2.1, hst.2.2.1, hst.2.2.2, ?_⟩
+  exact dead_and_not_connected_is_final C L _ hst.2.1 (by rw [hst.1]; decide) ops
 /-! ### non-vacuity -/
 
 /-- a (toy) AEAD satisfying the law fields: tag = 16 bytes depending on key, nonce and AAD lengths -/
